@@ -90,6 +90,17 @@ def _gen_case(rng, tier):
     case['touch'] = order[:rng.choice([1, 2, 3, 3])]
     if rng.random() < 0.2:
         case['touch'] = case['touch'] + ['files_seek']
+    # where and when the application looks at the form: a before-request hook that looked first, a handler
+    # that does its work lazily (while the server iterates), a second body bound to the same request object
+    prog = {}
+    if rng.random() < 0.15:
+        prog['before'] = ['forms_quiet']
+    if rng.random() < 0.15:
+        prog['lazy'] = True
+    if rng.random() < 0.1:
+        prog['rebind'] = True
+    if prog:
+        case['prog'] = prog
     if 'files' in case['touch'] and rng.random() < 0.35:
         # read the uploads piecewise in round-robin order instead of one after the other
         case['touch'] = [('files_rr:%d' % rng.choice([1, 3, 16, 64])) if t == 'files' else t for t in case['touch']]
@@ -111,6 +122,25 @@ def _wire(case, body):
         chunks.append({'data': body[pos:].hex(), 'upper': up, 'zeros': zeros, 'ext': ''})
     wire, *_ = gc.build({'chunks': chunks, 'last': {}, 'trailers': [], 'final_crlf': True})
     return wire
+
+
+def _flip(ch):
+    if 'a' <= ch <= 'z' or 'A' <= ch <= 'Z':
+        return ch.swapcase()
+    if '0' <= ch <= '8':
+        return chr(ord(ch) + 1)
+    return ch
+
+
+def second_fields(fields):
+    """Same structure and byte lengths, different text values (letters change case, digits move on)."""
+    out = []
+    for f in fields:
+        g = dict(f)
+        if 'value' in g:
+            g['value'] = ''.join(_flip(c) for c in g['value'])
+        out.append(g)
+    return out
 
 
 def expected(fields):
@@ -210,9 +240,20 @@ def _run_case(case):
     body, layout = gm.encode_fields(fields, case['boundary'], tail=unhx(case['tail']))
     wire = _wire(case, body)
     chunked = case['framing'] == 'chunked'
+    prog = case.get('prog') or {}
+    touch = list(case['touch'])
+    fields2 = None
+    if prog.get('rebind'):
+        fields2 = second_fields(fields)
+        body2, _ = gm.encode_fields(fields2, case['boundary'], tail=unhx(case['tail']))
+        d = gm.delim(case['boundary'])
+        if len(body2) == len(body) and body2.count(d) == body.count(d) and fields2 != fields:
+            touch.append('rebind:' + hx(_wire(case, body2)))
+        else:
+            fields2 = None
     o = body_request(wire, case['sched'], B=case['B'], cl=(None if chunked else len(body)), chunked=chunked,
                      ctype=gm.content_type_header(case['boundary'], case['quoted']), tempmode=case['temp'],
-                     touch=tuple(case['touch']))
+                     touch=tuple(touch), stages={k: prog[k] for k in ('before', 'lazy') if k in prog})
     log('status', o.resp.status, 'calls', o.stream.n_calls)
     forms_e, files_e, post_e = expected(fields)
     if o.hang is not None:
@@ -225,6 +266,15 @@ def _run_case(case):
         seen = o.seen
         if seen.get('seek_problem'):
             violation(res, 'C07:upload-seek-inconsistent', seen['seek_problem'])
+        if fields2 is not None and 'forms_rebound' in seen:
+            f2, u2, _p2 = expected(fields2)
+            res['fired']['second_body_bound_to_request'] += 1
+            for what, got, exp in (('forms', seen['forms_rebound'], f2), ('files', seen['files_rebound'], u2)):
+                d = _cmp(_norm_seen(got), exp, what)
+                if d:
+                    violation(res, f'C07:{what}-stale-after-rebind',
+                              f'after a second body was bound to the request (request["wsgi.input"] = ...), {d}')
+                    break
         for what, exp in (('forms', forms_e), ('files', files_e), ('POST', post_e)):
             if what in seen:
                 d = _cmp(_norm_seen(seen[what]), exp, what)
@@ -335,6 +385,12 @@ def _shrink_candidates(case):
             yield dict(case, B=B)
     if case['temp'] != 'mem':
         yield dict(case, temp='mem')
+    if case.get('prog'):
+        c = dict(case)
+        c.pop('prog')
+        yield c
+        for k in list(case['prog']):
+            yield dict(case, prog={k2: v for k2, v in case['prog'].items() if k2 != k})
     if len(case['touch']) > 1:
         for t in case['touch']:
             yield dict(case, touch=[t])
@@ -347,7 +403,7 @@ TWIN_SHARE = 0.05
 
 
 def gen_case(rng, tier):
-    return _twin.maybe_wrap(rng, _gen_case(rng, tier), TWIN_SHARE)
+    return _twin.maybe_wrap(rng, _gen_case(rng, tier), TWIN_SHARE, ok=lambda c: not (c.get('prog') or {}).get('before'))
 
 
 def run_case(case):
